@@ -300,6 +300,10 @@ class Program:
             # alias of another global?  (IPAddress = ipaddress)
             if isinstance(val, ast.Name):
                 r = self.resolve_global(module, val.id, _depth + 1)
+                if (isinstance(r, DefRef) and r.node._module is module and r.node.lineno > rec[2].lineno
+                        and val.id in BUILTIN_NAMES):
+                    # `bytes_type = bytes` executed before `class bytes(...)` is defined: the builtin is meant
+                    return Ref(f"builtins.{val.id}")
                 if r is not None and not (isinstance(r, tuple)):
                     return r
             if isinstance(val, ast.Attribute):
